@@ -72,6 +72,10 @@ func endorseReal(a *Authority, r *rand.Rand, at time.Time) (*issuedDoc, error) {
 			prod = sevsnp.SevProduct_SEV_PRODUCT_GENOA
 		}
 		ectx.SevSnp = &sev.SnpEndorsementRequest{Product: prod, LaunchVmsas: []uint32{0, 1, 2, 4, 240}[r.Intn(5)], Svn: uint32(r.Intn(4))}
+		if r.Intn(2) == 0 {
+			m := fx.Sha384([]byte(fmt.Sprintf("svsm %d", r.Int())))
+			ectx.SvsmSnpMeasurement = m
+		}
 	}
 	if r.Intn(2) == 0 {
 		ectx.ClSpec = uint64(1 + r.Intn(1000))
@@ -148,6 +152,11 @@ func verifyDoc(d *issuedDoc, root *x509.Certificate) []string {
 			}
 		}
 	}
+	if g.SevSnp != nil && len(g.SevSnp.SvsmMeasurement) > 0 {
+		if err := verify.Endorsement(d.bytes, &verify.Options{RootsOfTrust: roots, Now: mid, SNP: &verify.SNPOptions{Measurement: g.SevSnp.SvsmMeasurement, ExpectedLaunchVMSAs: 1}}); err != nil {
+			bad = append(bad, fmt.Sprintf("the listed SVSM measurement is rejected for one launch VMSA: %v", err))
+		}
+	}
 	if g.Tdx != nil {
 		for _, m := range g.Tdx.Measurements {
 			pol, err := gtb.TdxPolicy(context.Background(), e, &gtb.TdxPolicyOptions{RAMGiB: int(m.RamGib)})
@@ -221,7 +230,7 @@ func RunC03(run *vk.Run) {
 		ev   Event
 		kids map[string]*node
 	}
-	combos := Combos[:3]
+	combos := append(append([]Combo{}, Combos[:3]...), Combo{"memkm", "gcsca"}) // the last one runs long-lived
 	roots := map[Combo]*node{}
 	for _, cb := range combos {
 		roots[cb] = &node{kids: map[string]*node{}}
@@ -241,24 +250,48 @@ func RunC03(run *vk.Run) {
 			run.Infra(err)
 			return
 		}
+		// fold each command's Return into the command step: "Cmd:<expected result>"
+		var steps []Event
+		for _, e := range c.Cmds {
+			if e.Op == "Return" {
+				if len(steps) > 0 && steps[len(steps)-1].Op == "Cmd" {
+					steps[len(steps)-1].Op = "Cmd:" + e.Out
+				}
+				continue
+			}
+			steps = append(steps, e)
+		}
 		for ci, cb := range combos {
-			if run.IsQuick() && (nh+int(run.Seed)+ci)%6 != 0 {
+			if cb.KM == "memkm" && cb.CA == "gcsca" {
+				// handled below (own sampling rule)
+			} else if run.IsQuick() && (nh+int(run.Seed)+ci)%6 != 0 {
 				continue
 			}
 			if !run.IsQuick() && ci > 0 && (nh+int(run.Seed)+ci)%4 != 0 {
 				continue
 			}
 			cur := roots[cb]
-			// fold each command's Return into the command step: Out2 = expected result
-			var steps []Event
-			for _, e := range c.Cmds {
-				if e.Op == "Return" {
-					if len(steps) > 0 && steps[len(steps)-1].Op == "Cmd" {
-						steps[len(steps)-1].Op = "Cmd:" + e.Out
+			if cb.KM == "memkm" && cb.CA == "gcsca" {
+				// long-lived components cannot be cloned: a seeded sample of whole histories, each
+				// run linearly from an empty authority (its own subtree, no prefix sharing)
+				// histories in which a rotation re-uses the serial (and so the certificate object) of
+				// the current primary are always taken: that is where cached CA state goes stale
+				collide := 0
+				for _, e := range steps {
+					if strings.HasPrefix(e.Op, "Cmd") && e.Arg == "rotate" && strings.HasPrefix(e.Out, "ow,9") {
+						collide++
 					}
+				}
+				if collide < 2 && (nh+int(run.Seed))%(6*7) != 0 {
 					continue
 				}
-				steps = append(steps, e)
+				if collide >= 2 && run.IsQuick() && (nh+int(run.Seed))%3 != 0 {
+					continue
+				}
+				lin := &node{kids: map[string]*node{}}
+				cur.kids[fmt.Sprintf("history-%d", nh)] = lin
+				lin.ev = Event{Op: "Start"}
+				cur = lin
 			}
 			for _, e := range steps {
 				k := e.Op + e.Arg + e.Out
@@ -282,10 +315,15 @@ func RunC03(run *vk.Run) {
 		sort.Strings(keys)
 		for _, k := range keys {
 			kid := n.kids[k]
-			b, err := a.Clone()
-			if err != nil {
-				run.Infra(err)
-				return
+			var b *Authority
+			if a.LongLived && kid.ev.Op != "Start" {
+				b = a // the same long-running process continues (linear history)
+			} else {
+				var err error
+				if b, err = a.Clone(); err != nil {
+					run.Infra(err)
+					return
+				}
 			}
 			h2 := append(append([]string{}, hist...), kid.ev.Op+"("+kid.ev.Arg+","+kid.ev.Out+")")
 			docs2 := docs
@@ -298,15 +336,30 @@ func RunC03(run *vk.Run) {
 				extra["combo"], extra["history"] = b.Combo.String(), h2
 				run.Violation(key, what+fmt.Sprintf(" [%v after %v]", b.Combo, h2), extra)
 			}
-			if strings.HasPrefix(kid.ev.Op, "Cmd") {
+			if kid.ev.Op == "Start" {
+				// a fresh long-lived authority for this history
+				b.Close()
+				nb, nerr := NewAuthority(a.Combo)
+				if nerr != nil {
+					run.Infra(nerr)
+					return
+				}
+				nb.LongLived = true
+				b = nb
+			} else if strings.HasPrefix(kid.ev.Op, "Cmd") {
 				want := strings.TrimPrefix(kid.ev.Op, "Cmd:")
 				ev := kid.ev
 				ev.Op = "Cmd"
 				cs, _ := parseCmd(ev)
 				err := b.Exec(&Tap{}, cs.args(at)...)
-				if (err == nil) != (want == "ok") {
+				if (err == nil) != (want == "ok") && !(b.CA == "memca" && err == nil) { // memca keeps no objects: nothing to collide with
 					run.AddDrift(1)
 					fmt.Printf("DRIFT property=C03 command %v on %v after %v: real result %v, KeyAuthority.tla says %s\n", cs, b.Combo, hist, err, want)
+				}
+				if err != nil && b.LongLived {
+					// a failed command ends the long-running process (C10 speaks about the reloaded
+					// state; gcsca's cached manifest is not rolled back when Finalize fails)
+					b.longCA = nil
 				}
 				if err == nil && cs.Kind == "bootstrap" {
 					r, err := RootOf(b)
@@ -363,6 +416,7 @@ func RunC03(run *vk.Run) {
 			run.Infra(err)
 			return
 		}
+		a.LongLived = combo == Combo{"memkm", "gcsca"}
 		walk(a, nil, nil, roots[combo], 0, nil)
 	}
 	wg.Wait()
